@@ -170,6 +170,10 @@ def mon_C03(sc, trace, probes, info):
             if why == 'internal assertion' and 'may only be specialised by Exception subclasses' in repr(e) \
                     and 'CancelScope' in repr(e) and _has_first(sc):
                 finding = 'D11'
+            if 'coroutine ignored GeneratorExit' in why and any(q[0] == 'borrow_exc' and q[5] for q in probes):
+                # D25: an activity that is being closed left a borrow/claim block with an exception other than
+                # GeneratorExit (raised by its own cleanup code), so BorrowedResources.__aexit__ awaited during close
+                finding = 'D25'
             out.append(('run() ended with %s (%r)' % (why, e), finding))
     # signals seen by scenario level handlers (a signal caught by user code is fine; one that is thrown into
     # an activity that already left the scope it belongs to shows up as an escaping signal above)
@@ -650,6 +654,21 @@ def mon_C12(sc, trace, probes, info):
             for i, (cap, c) in enumerate(sc['res']):
                 if final[i] != c:
                     out.append(('at quiescence resource %r has level %r although nobody holds anything (supply %r)' % (i, final[i], c), None))
+    # a share must not be handed back to its parent while somebody still holds part of it: whoever borrowed from the
+    # share (a task that outlives the block) would keep using resources that the parent already gives to others
+    # (known finding D26: BorrowedResources.__aexit__ returns the whole debit regardless; the source has a TODO there)
+    live = {}
+    for p in probes:
+        if p[0] == 'borrow_in':
+            live[p[3]] = p[1]          # share name -> what it was borrowed from
+        elif p[0] == 'borrow_leave':
+            name = p[3]
+            holders = sorted(x for x, parent in live.items() if parent == name and x != name)
+            if name in live and holders:
+                out.append(('the block of share %r was left at %r while %r still hold(s) part of it: the whole share goes '
+                            'back to %r and can be borrowed again although that part is still in use' % (name, p[5], holders, p[1]),
+                            'D26'))
+            live.pop(name, None)
     reqs = {}
     for p in probes:
         if p[0] == 'borrow_req' and p[1] == 'claim':
